@@ -247,9 +247,8 @@ theorem between_body (E : Env) (k : OK ρ) (r : ρ) (lo hi fuel : Nat) :
     | none => simp [hk, hp, hc, opsRule, opsWord, bind, Except.bind, upd]
     | some p =>
       simp only
-      by_cases hq : (p = pos ∧ hi = uintMax)
-      · simp [hk, hp, hc, hq, opsRule, opsWord, bind, Except.bind, upd]
-      · simp [hk, hp, hc, hq, opsRule, opsWord, bind, Except.bind, upd]
+      by_cases h1 : p = pos <;> by_cases h2 : hi = uintMax <;>
+        simp [hk, hp, hc, h1, h2, opsRule, opsWord, bind, Except.bind, upd]
 
 /-- RULE_BETWEEN: at most `hi` iterations, each with its own cap_save; a failing iteration (or an empty one of an unbounded
     repetition) is rolled back and ends the loop; fewer than `lo` iterations roll everything back -/
